@@ -13,17 +13,24 @@ RULE = ('probe decks of one surface (every elementary kind incl. one-sheet cones
         'signed axis permutations / Pythagorean / generic; cells with TRCL by number, inline and starred; implicit '
         'surfaces 1000*cell+surface with either sign; universes filled with transformations. The abstract deck given '
         'to the Lean spec carries the full motion; the text carries the abbreviated card. 250 points per deck. '
-        'Distinct = (kind, spelling, rotation class, parameters).')
+        'Distinct = (kind, spelling, rotation class, parameters). pottransform: every top-level pot_transform / '
+        'cell_transform call of real conversions (universe and lattice decks, all option sets) replayed on the Lean '
+        'model from the state it started in.')
 NOT_PROVED = ['3-entry matrices (one vector given: MCNP completes arbitrarily, no independent spec; not named by the property) '
               'are compared with the model only',
-              'adjust_matrix on slightly non-orthogonal input has no independent spec (MCNP-internal adjustment)']
+              'adjust_matrix on slightly non-orthogonal input has no independent spec (MCNP-internal adjustment)',
+              'cells: transformed_tree / transformed_cell are stated on sense assignments (the tree built by pot_transform '
+              'holds at the image point iff the source holds at the original point, given that each new surface has there '
+              'the sense of its source); that hypothesis is transformed_card for one card — the composition with the '
+              'surface dictionary of a whole deck is decided by the trcl / fill / implicit streams (point monitor)']
 ASSUMPTIONS = ['supplied matrices are rotations (orthogonal, det +1) up to rounding']
 
 
 def plan(tier):
     q = tier == 'quick'
     return [('trsurf', 300 if q else 6000, {}), ('trcl', 120 if q else 2500, {}), ('implicit', 80 if q else 1500, {}),
-            ('fill', 80 if q else 1500, {}), ('trmodel', 600 if q else 15000, {}), ('trnorm', 500 if q else 12000, {})]
+            ('fill', 80 if q else 1500, {}), ('trmodel', 600 if q else 15000, {}), ('trnorm', 500 if q else 12000, {}),
+            ('pottransform', 120 if q else 2500, {})]
 
 
 def search_plan(tier, disagreements):
@@ -35,6 +42,48 @@ def _known(d, res):
         if s.mn == 'sq' and P.sq_positive_centre(s.ps) and s.tr is None:
             return 'sq-positive-centre'
     return None
+
+
+def pottransform_case(seed, rng, ctx):
+    """pot_transform / cell_transform (TRCL and FILL transformations applied to whole cells) vs the Lean model: every
+    top-level call of a real conversion is replayed on the model from the state it started in (counters, cell
+    dictionary, cache) and must give the same result tree / cell number, the same new surfaces with the same sources,
+    the same new cells and the same new cache entries"""
+    from .. import gen_univ as U
+    m = rng.random()
+    if m < 0.7:
+        d = U.build_universe_deck(rng, depth=rng.randint(1, 3), macro_p=0.15, tr_p=0.1, fill_tr_p=0.5, trcl_p=0.5, reuse_p=0.6)
+    else:
+        d = U.build_universe_deck(rng, depth=2, macro_p=0.0, tr_p=0.0, fill_tr_p=0.4, trcl_p=0.4, lattice_p=0.6,
+                                  lat_tr_p=0.3, lat_trcl_p=0.3)
+    args = random_options(rng)
+    text = D.render_deck(d, D.Layout(rng))
+    argv = list(args) + [x for lo in (d.lattice_opts or []) for x in ('--lattice', lo)]
+    key = h((text, tuple(argv)))
+    res, cap = C.convert_capture(text, argv)
+    if 'CellConversion.pot_transform' in cap.missing or 'CellConversion.cell_transform' in cap.missing:
+        return dict(hashes=[key], nontrivial_hashes=[], dist={'pottransform:anchor-missing': 1}, sample=None,
+                    failures=[fail('disagreement', 'pot_transform / cell_transform no longer exist under these names',
+                                   {'stream': 'pottransform', 'stage': 'anchor'}, {'deck': text, 'args': argv})])
+    fails = []
+    dist = {'pottransform:calls': len(cap.pt_calls)}
+    if cap.error and 'pottransform' in cap.error:
+        fails.append(fail('infra', cap.error, {'stream': 'pottransform'}, None))
+    for c in cap.pt_calls:
+        resp = ctx['drv'].ask('pottransform ' + lean.hx(c['request']))
+        kind = 'cell' if '(call cell' in c['request'] else 'tree'
+        dist['pottransform:' + kind] = dist.get('pottransform:' + kind, 0) + 1
+        if '(r ' in c['expected']:
+            dist['pottransform:with-cellref'] = dist.get('pottransform:with-cellref', 0) + 1
+        if c['expected'].endswith('(surfs ) (cells ) (cache )'):
+            dist['pottransform:cache-hit'] = dist.get('pottransform:cache-hit', 0) + 1
+        if resp != c['expected']:
+            fails.append(fail('disagreement', 'pot_transform/cell_transform: code %s / model %s' % (c['expected'][:400], resp[:400]),
+                              {'stream': 'pottransform'}, {'deck': text, 'args': argv, 'request': c['request']}))
+            break
+    return dict(hashes=[key], nontrivial_hashes=[key] if cap.pt_calls else [], dist=dist,
+                sample={'calls': len(cap.pt_calls), 'first': (cap.pt_calls[0]['expected'][:300] if cap.pt_calls else None)},
+                failures=fails)
 
 
 def trnorm_case(seed, rng, ctx):
@@ -134,6 +183,8 @@ def run_case(stream, seed, ctx, params):
     npts = params.get('npts', 250)
     if stream == 'trnorm':
         return trnorm_case(seed, rng, ctx)
+    if stream == 'pottransform':
+        return pottransform_case(seed, rng, ctx)
     if stream == 'trmodel':
         # Lean model of transformation() + conversion vs the code, one transformed card (tori excluded: the
         # code classifies their axis with a tolerance, the model with equality)
